@@ -495,3 +495,82 @@ def _(self: Obj['js_rbql.ConstGroupVerifier'], output_index: Int):
 def _(self: Obj['js_rbql.ConstGroupVerifier'], key: Key) -> Cell:
     requires(js_const_inv(self) and len(self.hist[key]) >= 1, 'inv')
     ensures(result == self.hist[key][0], 'the_constant_value_of_the_group')
+
+
+# ---------------------------------------------------------------- text-level helpers (the contracts of contracts/engine_joinvars.py, engine_text.py)
+@trusted('js_rbql.replace_all', trusted='A-JS-replace_all: src.split(search).join(replacement) replaces every occurrence of a non-empty search text, left to right, like Python str.replace (validated boundedly in bounded/jobs_c19.py)')
+def _(src: Str, search: Str, replacement: Str) -> Str:
+    requires(len(search) > 0, 'non_empty_search_text')
+    ensures(result == str_replace(src, search, replacement), 'every_occurrence_replaced')
+
+
+@contract('js_rbql.combine_string_literals', name='C19.js.literals.combine', props=['C19'])
+def _(backend_expression: Str, string_literals: List[Str]) -> Str:
+    # as C08.literals.combine (contracts/engine_text.py)
+    local_types(i=Int)
+    invariant(0, 0 <= i and i <= len(string_literals), 'idx')
+    invariant(0, backend_expression == combine_upto(old(backend_expression), contents(string_literals), i), 'replaced_so_far')
+    ensures(result == combine_upto(backend_expression, contents(string_literals), len(string_literals)), 'placeholders_replaced_in_order')
+    ensures(contents(string_literals) == old(contents(string_literals)), 'literals_untouched')
+
+
+@trusted('js_rbql.get_ambiguous_error_msg', trusted='message text only')
+def _(variable_name: Str) -> Str:
+    pass
+
+
+@pred
+def js_jv_lhs(A, c1, c2):
+    # rbql.js swaps the sides only when the right-hand side names an input variable (NR / aNR must be written on the left, as C04 quantifies)
+    return c2 if has_key(A, c2) else c1
+
+
+@pred
+def js_jv_rhs(A, c1, c2):
+    return c1 if has_key(A, c2) else c2
+
+
+@pred
+def js_jv_pair_ok(A, B, c1, c2):
+    return (not (has_key(A, c1) and has_key(B, c1)) and not (has_key(A, c2) and has_key(B, c2))
+            and (a_nr(js_jv_lhs(A, c1, c2)) or has_key(A, js_jv_lhs(A, c1, c2)))
+            and (b_nr(js_jv_rhs(A, c1, c2)) or has_key(B, js_jv_rhs(A, c1, c2))))
+
+
+@pred
+def js_jv_lhs_index(A, c1, c2):
+    return -1 if a_nr(js_jv_lhs(A, c1, c2)) else A[js_jv_lhs(A, c1, c2)].index
+
+
+@pred
+def js_jv_rhs_index(A, B, c1, c2):
+    return -1 if b_nr(js_jv_rhs(A, c1, c2)) else B[js_jv_rhs(A, c1, c2)].index
+
+
+@pred
+def js_jv_lhs_text(A, c1, c2):
+    return 'NR' if js_jv_lhs_index(A, c1, c2) == -1 else 'safe_join_get(record_a, ' + str_of_int(js_jv_lhs_index(A, c1, c2)) + ')'
+
+
+@contract('js_rbql.resolve_join_variables', name='C19.js.join_vars', props=['C19'])
+def _(input_variables_map: VMap, join_variables_map: VMap, variable_pairs: List[Tuple[Str, Str]], string_literals: List[Str]) -> Tuple[List[Str], List[Int]]:
+    # as C04.join_vars (contracts/engine_joinvars.py), for the JavaScript engine
+    requires(vmap_ok(input_variables_map) and vmap_ok(join_variables_map), 'zero_based_column_indices')
+    local_types(lhs_variables=List[Str], rhs_indices=List[Int])
+    loop_types(0, variable_pair=Tuple[Str, Str], join_var_1=Str, join_var_2=Str, lhs_key_index=Opt[Int], rhs_key_index=Opt[Int], lhs_join_var_expression=Str)
+    invariant(0, 0 <= __i and __i <= len(variable_pairs) and is_fresh(lhs_variables) and is_fresh(rhs_indices) and not same(lhs_variables, rhs_indices), 'idx')
+    invariant(0, len(lhs_variables) == __i and len(rhs_indices) == __i, 'one_component_per_pair')
+    invariant(0, forall(Int, lambda j: implies(0 <= j and j < __i,
+                                                 js_jv_pair_ok(input_variables_map, join_variables_map, jv_c(contents(variable_pairs)[j][0], contents(string_literals)), jv_c(contents(variable_pairs)[j][1], contents(string_literals))))), 'pairs_so_far_resolve')
+    invariant(0, forall(Int, lambda j: implies(0 <= j and j < __i,
+                                                 contents(rhs_indices)[j] == js_jv_rhs_index(input_variables_map, join_variables_map, jv_c(contents(variable_pairs)[j][0], contents(string_literals)), jv_c(contents(variable_pairs)[j][1], contents(string_literals)))
+                                                 and contents(lhs_variables)[j] == js_jv_lhs_text(input_variables_map, jv_c(contents(variable_pairs)[j][0], contents(string_literals)), jv_c(contents(variable_pairs)[j][1], contents(string_literals))))), 'components_so_far')
+    ensures(len(result[0]) == len(variable_pairs) and len(result[1]) == len(variable_pairs) and is_fresh(result[0]) and is_fresh(result[1]), 'one_key_expression_per_index')
+    ensures(forall(Int, lambda i: implies(0 <= i and i < len(variable_pairs),
+                                           js_jv_pair_ok(input_variables_map, join_variables_map, jv_c(contents(variable_pairs)[i][0], contents(string_literals)), jv_c(contents(variable_pairs)[i][1], contents(string_literals))))), 'every_pair_names_one_field_of_each_table')
+    ensures(forall(Int, lambda i: implies(0 <= i and i < len(variable_pairs),
+                                           contents(result[1])[i] == js_jv_rhs_index(input_variables_map, join_variables_map, jv_c(contents(variable_pairs)[i][0], contents(string_literals)), jv_c(contents(variable_pairs)[i][1], contents(string_literals))))), 'b_side_index_of_pair_i')
+    ensures(forall(Int, lambda i: implies(0 <= i and i < len(variable_pairs),
+                                           contents(result[0])[i] == js_jv_lhs_text(input_variables_map, jv_c(contents(variable_pairs)[i][0], contents(string_literals)), jv_c(contents(variable_pairs)[i][1], contents(string_literals))))), 'a_side_expression_of_pair_i')
+    raises('js_rbql.RbqlParsingError', exists(Int, lambda i: 0 <= i and i < len(variable_pairs)
+                                              and not js_jv_pair_ok(input_variables_map, join_variables_map, jv_c(contents(variable_pairs)[i][0], contents(string_literals)), jv_c(contents(variable_pairs)[i][1], contents(string_literals)))), 'unknown_or_ambiguous_key')
